@@ -11,15 +11,15 @@ echo "--- tests with the change:"
 # demos that hard-code the path of the worktree they were written in are run there (WT=<worktree>)
 if [ -n "$WT" ]; then
   echo "--- demo with the change (in its worktree $WT):"
-  (cd $WT && git apply --whitespace=nowarn "$PATCH" && PYTHONPATH=$WT /venv/bin/python "$DEMO" >/tmp/seed_demo_with.txt 2>&1; echo "exit=$?"; tail -2 /tmp/seed_demo_with.txt | cut -c1-200; git checkout -q -- . )
+  (cd $WT && git apply --whitespace=nowarn "$PATCH" && PYTHONPATH=$WT /venv/bin/python "$DEMO" >/tmp/seed_demo_with_$$.txt 2>&1; echo "exit=$?"; tail -2 /tmp/seed_demo_with_$$.txt | cut -c1-200; git checkout -q -- . )
   echo "--- demo on the unchanged tree (in its worktree):"
-  (cd $WT && PYTHONPATH=$WT /venv/bin/python "$DEMO" >/tmp/seed_demo_without.txt 2>&1; echo "exit=$?"; tail -1 /tmp/seed_demo_without.txt | cut -c1-200)
+  (cd $WT && PYTHONPATH=$WT /venv/bin/python "$DEMO" >/tmp/seed_demo_without_$$.txt 2>&1; echo "exit=$?"; tail -1 /tmp/seed_demo_without_$$.txt | cut -c1-200)
 else
 echo "--- demo with the change:"
-(cd $S && PYTHONPATH=$S /venv/bin/python "$DEMO" >/tmp/seed_demo_with.txt 2>&1; echo "exit=$?"; tail -2 /tmp/seed_demo_with.txt | cut -c1-200)
+(cd $S && PYTHONPATH=$S /venv/bin/python "$DEMO" >/tmp/seed_demo_with_$$.txt 2>&1; echo "exit=$?"; tail -2 /tmp/seed_demo_with_$$.txt | cut -c1-200)
 echo "--- demo on the unchanged tree:"
-(cd /tmp && PYTHONPATH=/repo /venv/bin/python "$DEMO" >/tmp/seed_demo_without.txt 2>&1; echo "exit=$?"; tail -1 /tmp/seed_demo_without.txt | cut -c1-200)
+(cd /tmp && PYTHONPATH=/repo /venv/bin/python "$DEMO" >/tmp/seed_demo_without_$$.txt 2>&1; echo "exit=$?"; tail -1 /tmp/seed_demo_without_$$.txt | cut -c1-200)
 fi
 echo "--- ./check $PROP against the change:"
 cd /verif && ./check $PROP --repo $S --no-evidence "$@" 2>&1 | grep -E "^violation|^VIOLATION|^HARNESS|^KNOWN|runs=" | cut -c1-500
-rm -rf $S
+rm -rf $S /tmp/seed_demo_with_$$.txt /tmp/seed_demo_without_$$.txt
